@@ -396,6 +396,7 @@ def run_schedule(schedule, out=(), err=(), in_script=None, in_tty=False, pty=Fal
                 if a in expected and a not in sched.finished:
                     alive.append(a)
             obs["alive"] = alive
+            obs["in_remaining"] = len(ins.script) if ins else None
             obs["written"] = (env.written["out"], env.written["err"])
             obs["timer_state"] = getattr(getattr(r, "_timer", None), "state", None)
         finally:
